@@ -9,6 +9,7 @@ import MpirProofs.Lemmas.GcdExt1
 import MpirProofs.Lemmas.GcdExtZ
 import MpirProofs.Lemmas.GcdJacobi
 import MpirProofs.Lemmas.GcdKronW
+import MpirProofs.Lemmas.GcdLehmer2
 namespace Mpir.C07
 open Mpir Mpir.Gcd
 
@@ -73,6 +74,19 @@ theorem gcd_loop_terminates : WellFounded ProperStep := by
   · exact InvImage.wf _ Nat.lt_wfRel.wf
 
 example : ProperStep ⟨10, 46, 0, 1⟩ ⟨240, 46, 0, 1⟩ := ⟨⟨1, 5, 0, 1⟩, by decide, by decide, by decide, by decide⟩
+
+/-- PARTIAL (full statement: `MpnGcdContract` holds outright).  The executable value-level model of
+    mpn_gcd — initial division, the Lehmer loop (mpn_hgcd2 on the top two limbs, else
+    mpn_gcd_subdiv_step), the n ≤ 2 endgame with gcd_2 and mpn_gcd_1 — returns gcd(U, V) on every call
+    satisfying the C's ASSERTs, ASSUMING the contract of mpn_hgcd2 (`Hgcd2Contract`: a returned matrix
+    is unimodular, not the identity, M⁻¹(a; b) is positive and loses at most one limb).  What is
+    missing: a proof of `Hgcd2Contract` for the translated hgcd2 (the Lehmer/Jebelean condition); the
+    correspondence checks it on every generated hgcd2 call.  Every executable step is shown to be an
+    instance of the abstract step contract, and fuel U + V + 1 is proved sufficient (termination). -/
+theorem mpn_gcd_correct_partial (hh : Hgcd2Contract) : MpnGcdContract := mpn_gcd_of_hgcd2 hh
+
+example : mpn_gcd (3 ^ 50 * 7 ^ 30) 3 (3 ^ 45 * 5 ^ 20) 2 = 3 ^ 45 := by decide +kernel
+example : (subdivStep 240 46).a = 10 ∧ (subdivStep 240 46).b = 46 := by decide +kernel
 
 /-! ## Single-limb functions -/
 
